@@ -35,6 +35,7 @@ type Cell struct {
 	name    string
 	typ     types.Type
 	escaped bool // captured by a closure: havocked by calls
+	freevar bool // the cell of a closure's free variable
 }
 
 func (c *Cell) key() string { return fmt.Sprintf("%d", c.id) }
@@ -329,8 +330,12 @@ func (r *FnRun) freshVal(st *State, t types.Type, hint string) Val {
 		}
 		return sv
 	case *types.Slice:
+		// A slice that comes from outside (parameter, call result) is given
+		// offset 0 in a backing array of its own: distinct such slices are
+		// assumed not to overlap partially (assumption A-SLICE). This keeps
+		// element terms free of offset arithmetic.
 		s := SliceVal{
-			Base: r.fresh(hint+"_base", SInt), Off: r.fresh(hint+"_off", r.idxSort()),
+			Base: r.fresh(hint+"_base", SInt), Off: r.idxLit(0),
 			Len: r.fresh(hint+"_len", r.idxSort()), Cap: r.fresh(hint+"_cap", r.idxSort()), Elem: u.Elem(),
 		}
 		r.assumeSliceWF(s)
